@@ -50,6 +50,12 @@ CHECKS["C14"] = dict(
    note="Convertibility is decided by evaluating `convert <fmt> <value>` (the relation the property states); extensions come from reference/converters.md.",
    ref="DESIGN.md section 5 C14")
 
+CHECKS["C01"] = dict(
+   technique="property-based differential testing against a reference interpreter written from the language reference",
+   text="Typed, size-bounded programs over the whole expression language (with deliberately failing sub-terms placed where short-circuit and select must skip them, parameter names shadowing earlier and later bindings, permuted tuple comparisons) are rendered with minimal parentheses, evaluated by a tree-walking reference interpreter that implements the language reference, and by the implementation (eval_string and build(path)); success/failure and every top-level binding must agree. Behaviour the reference leaves undefined is excluded and counted.",
+   note="The reference interpreter is the trusted base (DESIGN.md Appendix A lists every rule and its source); disagreements were triaged against the reference text before being called defects.",
+   ref="DESIGN.md section 5 C01, Appendix A")
+
 PENDING = {}
 
 def main():
